@@ -1,17 +1,96 @@
-"""C13: rpm's own test vectors, scraped from the unit tests in src/version.rs"""
-import re
-from .common import read, emit, rust_str, natlist, degraded
+"""C13: the oracle tables of the version comparison, from files VENDORED in /verif (tools/gen/data/), not from /repo.
+
+* rpmvercmp.at.txt     the RPMVERCMP(a, b, r) cases of rpm's own test suite (tests/rpmvercmp.at)
+* vercmp_libsolv.txt   ordered pairs of version strings with the answer of libsolv's `solv_vercmp_rpm`
+* evrcmp_libsolv.txt   ordered pairs of E:V-R texts with the answer of libsolv's `pool_evrcmp_str` (DISTTYPE_RPM)
+  (both computed once by tools/gen/data/mk_libsolv_pairs.py; provenance in the heads of the files)
+
+Until 2026-09-30 the table was scraped from the `compare_version_string(..)` assertions of /repo/src/version.rs, i.e. the
+oracle lived in the code under test (notes/AUDIT2.md c40). /repo is not read here any more.
+
+A vector whose strings are pure ASCII is stored once (code points = bytes); the others carry the strings twice: as code
+points (what the Rust code iterates over) and as UTF-8 bytes (what rpm's C code iterates over).
+"""
+import os, re
+from .common import emit, degraded
+
+DATA = os.path.join(os.path.dirname(os.path.abspath(__file__)), "data")
+ORD = {-1: ".lt", 0: ".eq", 1: ".gt"}
+CHUNK = 100
+
+
+def nats(xs):
+    return "[" + ", ".join(str(x) for x in xs) + "]"
+
+
+def vec(a: bytes, b: bytes, r: int):
+    if a.isascii() and b.isascii():
+        return f"  ({nats(a)}, {nats(b)}, {ORD[r]})"
+    sa, sb = a.decode("utf-8"), b.decode("utf-8")
+    return f"  (({nats(map(ord, sa))}, {nats(map(ord, sb))}), ({nats(a)}, {nats(b)}), {ORD[r]})"
+
+
+def one_table(name, ty, doc, vs):
+    """a long list literal is slow to elaborate: the table is the concatenation of chunks of CHUNK vectors"""
+    chunks = [vs[i:i + CHUNK] for i in range(0, len(vs), CHUNK)] or [[]]
+    out = ""
+    for k, c in enumerate(chunks):
+        out += f"def {name}_{k} : List {ty} := [\n" + ",\n".join(vec(*v) for v in c) + "]\n"
+    out += f"/-- {doc} ({len(vs)} vectors) -/\n"
+    out += f"def {name} : List {ty} := " + " ++ ".join(f"{name}_{k}" for k in range(len(chunks))) + "\n"
+    return out
+
+
+def table(name, doc, vs):
+    asc = [v for v in vs if v[0].isascii() and v[1].isascii()]
+    uni = [v for v in vs if not (v[0].isascii() and v[1].isascii())]
+    return (one_table(name, "AsciiVec", doc + " — the pure-ASCII ones", asc)
+            + one_table(name + "U", "Utf8Vec", doc + " — the ones with non-ASCII characters", uni))
+
+
+def read_at():
+    out = []
+    for line in open(os.path.join(DATA, "rpmvercmp.at.txt"), encoding="utf-8"):
+        line = line.strip()
+        if not line or line.startswith("#"):
+            continue
+        m = re.match(r"RPMVERCMP\((.*), (.*), (-?[01])\)$", line)
+        if not m:
+            raise ValueError("unreadable line: " + line)
+        out.append((m.group(1).encode("utf-8"), m.group(2).encode("utf-8"), int(m.group(3))))
+    return out
+
+
+def read_pairs(name):
+    out = []
+    for line in open(os.path.join(DATA, name), encoding="utf-8"):
+        if line.startswith("#") or not line.strip():
+            continue
+        t = line.split()
+        a = b"" if t[0] == "-" else bytes.fromhex(t[0])
+        b = b"" if t[1] == "-" else bytes.fromhex(t[1])
+        out.append((a, b, int(t[2])))
+    return out
 
 
 def generate():
-    src = read("src/version.rs")
-    pat = re.compile(r'assert_eq!\(\s*Ordering::(Equal|Less|Greater),\s*compare_version_string\(\s*"((?:[^"\\]|\\.)*)",\s*"((?:[^"\\]|\\.)*)"\s*\)', re.S)
-    vecs = [(rust_str(a), rust_str(b), {"Equal": ".eq", "Less": ".lt", "Greater": ".gt"}[o]) for o, a, b in pat.findall(src)]
-    if len(vecs) < 50:
-        degraded.append(("VercmpVectors", f"only {len(vecs)} vectors found"))
+    try:
+        at = read_at()
+        solv = read_pairs("vercmp_libsolv.txt")
+        evr = read_pairs("evrcmp_libsolv.txt")
+    except (OSError, ValueError) as e:
+        degraded.append(("VercmpVectors", f"vendored oracle tables unreadable: {e}"))
+        return
+    if len(at) < 100 or len(solv) < 300 or len(evr) < 100:
+        degraded.append(("VercmpVectors", f"vendored oracle tables too short: {len(at)}, {len(solv)}, {len(evr)}"))
     body = "namespace RpmVerif.Gen\n"
-    body += "/-- (a, b, expected) from the `compare_version_string(..)` assertions in src/version.rs\n(rpm's rpmvercmp.at cases); code points written out -/\n"
-    body += "def vercmpVectors : List (List Nat × List Nat × Ordering) := [\n"
-    body += ",\n".join(f"  ({natlist(a)}, {natlist(b)}, {o})" for a, b, o in vecs)
-    body += "]\nend RpmVerif.Gen\n"
+    body += ("/-! Oracle vectors of C13. Source: files vendored under /verif/tools/gen/data (NOT /repo) — see tools/gen/vercmp_vectors.py -/\n"
+             "/-- (a, b, expected): two pure-ASCII strings (code points = bytes) -/\n"
+             "abbrev AsciiVec := List Nat × List Nat × Ordering\n"
+             "/-- ((a, b) as code points — what the Rust code iterates over, (a, b) as UTF-8 bytes — what rpm's C code iterates over, expected) -/\n"
+             "abbrev Utf8Vec := (List Nat × List Nat) × (List Nat × List Nat) × Ordering\n")
+    body += table("vercmpVectors", "the `RPMVERCMP(a, b, r)` cases of rpm's own tests/rpmvercmp.at (tools/gen/data/rpmvercmp.at.txt)", at)
+    body += table("vercmpLibsolvVectors", "ordered pairs answered by libsolv's `solv_vercmp_rpm` (tools/gen/data/vercmp_libsolv.txt)", solv)
+    body += table("evrLibsolvVectors", "ordered pairs of E:V-R texts answered by libsolv's `pool_evrcmp_str` (tools/gen/data/evrcmp_libsolv.txt)", evr)
+    body += "end RpmVerif.Gen\n"
     emit("VercmpVectors", body)
